@@ -35,6 +35,7 @@ def run(ctx):
     ctx.rule(torch_pipeline)
     ctx.rule(attrs)
     ctx.rule(exclusions)
+    ctx.rule(cc.manifest_filter, "R-C09-manifest-exact", prog.func("command_line.signals_to_torch_feat_dir"))
     ctx.rule(config_syntax)
     ctx.rule(seed)
     ctx.rule(torch_twins)
@@ -245,7 +246,44 @@ def torch_pipeline(ctx):
                 attr_roles["pre"] = lst2.args[0]
             ctx.check(cc.is_call(b, "torch.from_numpy"), R, g, node, "the signal enters torch via from_numpy (no copy, same values)",
                       "signal does not enter the pipeline via torch.from_numpy: %s" % _short(b))
-    ctx.need(set(attr_roles) == {"pre", "post", "computer"}, R, "could not identify pre/computer/post attributes in __getitem__: %s" % attr_roles)
+    # the signal is read from the item's own path, keyed by its own id, with the requested container type
+    idx = S.sym(g.params[1])
+    for guard, v, node in ev.returns:
+        reads = []
+        for x in S.walk(v):
+            if x.op == "call" and isinstance(x.args[0], str) and x.args[0].endswith("read_signal") and x not in reads:
+                reads.append(x)
+        ctx.need(reads, R, "no read_signal call feeds the returned features")
+        for rd in reads:
+            pos = [a for a in rd.args[1:] if not (a.op == "call" and isinstance(a.args[0], str) and a.args[0].startswith("kw:"))]
+            kws = {a.args[0][3:]: a.args[1] for a in rd.args[1:] if a.op == "call" and isinstance(a.args[0], str) and a.args[0].startswith("kw:")}
+            names = ["rfilename", "dtype", "key", "force_as"]
+            for nm, a in zip(names, pos):
+                kws.setdefault(nm, a)
+
+            def item(k):
+                return S.call("getitem", S.call("getitem", S.sym(g.params[0] + ".utt_path"), idx), S.const(k))
+            item_attr = None
+            pth = kws.get("rfilename")
+            if pth is not None and cc.is_call(pth, "getitem") and cc.is_call(pth.args[1], "getitem") and pth.args[1].args[2] == idx:
+                item_attr = pth.args[1].args[1]
+            ctx.check(pth is not None and cc.is_call(pth, "getitem") and pth.args[2] == S.ONE and item_attr is not None, R, g, node,
+                      "the signal is read from the path of the item selected by the index", "read_signal reads %s" % _short(pth) if pth is not None else "no path")
+            key = kws.get("key")
+            want = S.call("getitem", S.call("getitem", item_attr, idx), S.ZERO) if item_attr is not None else None
+            ctx.check(key is not None and key == want, R, g, node,
+                      "the utterance id is always passed as the archive key (table / hdf5 / npz sources hold several utterances)",
+                      "read_signal is given key=%s instead of the utterance id on every path: for an archive source whose type is inferred "
+                      "from the suffix every utterance reads the archive's first / default entry" % (_short(key) if key is not None else None))
+            fa = kws.get("force_as")
+            ctx.check(fa is not None and fa.op == "sym" and fa.args[0].startswith(g.params[0] + "."), R, g, node,
+                      "--force-as is forwarded to read_signal unchanged", "force_as passed to read_signal is %s" % (_short(fa) if fa is not None else None))
+            if fa is not None and fa.op == "sym":
+                attr_roles["force_as"] = fa.args[0]
+            dtp = kws.get("dtype")
+            ctx.check(dtp is not None and S.show(dtp) in ("numpy.float64",), R, g, node, "the signal is read as float64",
+                      "read_signal dtype is %s" % (_short(dtp) if dtp is not None else None))
+    ctx.need({"pre", "post", "computer"} <= set(attr_roles), R, "could not identify pre/computer/post attributes in __getitem__: %s" % attr_roles)
     # attribute -> ctor parameter
     selfn = init.params[0]
     attr2param = {}
@@ -280,6 +318,12 @@ def torch_pipeline(ctx):
                   "the %s-processing stage of the dataset receives the list built from --%s (%s -> %s -> %s)" % (role, dest, a.id, p, attr),
                   "the %s-processing stage (%s) receives `%s`, which is built from options.%s with families %s; expected options.%s / %s"
                   % (role, attr, a.id, sorted(dests), sorted(c.short for c in fams), dest, fam))
+    if "force_as" in attr_roles:
+        p = attr2param.get(attr_roles["force_as"])
+        a = actual.get(p)
+        ctx.check(p is not None and a is not None and astq.text(a) == "options.force_as", R, tool, astq.enclosing_stmt(pm, site),
+                  "the dataset's container type is options.force_as",
+                  "the container type used by the dataset (%s) is %s, not options.force_as" % (attr_roles["force_as"], astq.text(a) if a is not None else None))
     attr = attr_roles["computer"]
     p = attr2param.get(attr)
     a = actual.get(p)
@@ -573,14 +617,7 @@ def seed(ctx):
         ctx.check(any(astq.is_self_attr(x, g.params[0], "seed") for x in ast.walk(c)), R, g, c,
                   "the per-item seed includes the base seed", "the per-item seed ignores self.seed")
     tool = prog.func("command_line.signals_to_torch_feat_dir")
-    # the base seed is options.seed when given
-    ok = False
-    for n in tool.body_nodes():
-        if isinstance(n, ast.If) and astq.text(n.test) == "options.seed is None":
-            els = [x for x in n.orelse if isinstance(x, ast.Assign)]
-            ok = any(astq.text(x.value) == "options.seed" for x in els)
-    ctx.check(ok, R, tool, tool.node, "the base seed is --seed whenever it is given",
-              "signals_to_torch_feat_dir does not take options.seed as the base seed")
+    cc.base_seed(ctx, R, tool, ds)
 
 
 def _in(body, node):
